@@ -52,6 +52,8 @@ pub struct RawNet {
     pub vars: Vec<RawVar>,
     /// force `$v: !v` on the first variable (steady-state-free networks for C18)
     pub force_oscillator: bool,
+    /// 0-2 additional frozen variables (`$z: z`): networks of up to 6 variables, many attractors
+    pub frozen: u8,
 }
 
 /// Uninterpreted function symbols with fixed arities (shared between variables).
@@ -104,12 +106,14 @@ pub fn raw_net(max_vars: usize) -> BoxedStrategy<RawNet> {
         prop::collection::vec(any::<u16>(), 4),
         prop::collection::vec(raw_var(), 4),
         prop::bool::weighted(0.1),
+        prop_oneof![24 => Just(0u8), 2 => Just(1u8), 2 => Just(2u8), 1 => Just(3u8)],
     )
-        .prop_map(|(n, names, vars, force_oscillator)| RawNet {
+        .prop_map(|(n, names, vars, force_oscillator, frozen)| RawNet {
             n,
             names,
             vars,
             force_oscillator,
+            frozen,
         })
         .boxed()
 }
@@ -294,6 +298,32 @@ pub fn resolve_net_with(raw: &RawNet, pool: &[&str], max_bits: usize) -> String 
             }
         }
     }
+    if raw.frozen >= 3 {
+        // "switch network": one generated variable plus five frozen ones (>= 32 attractors per colour)
+        let first: Vec<String> = lines
+            .iter()
+            .filter(|l| {
+                l.split(|c: char| !(c.is_alphanumeric() || c == '_'))
+                    .filter(|w| !w.is_empty())
+                    .all(|w| w == names[0] || matches!(w, "true" | "false" | "h" | "in_0"))
+            })
+            .cloned()
+            .collect();
+        lines = if first.iter().any(|l| l.contains(names[0].as_str())) {
+            first
+        } else {
+            vec![format!("${}: true", names[0])]
+        };
+        for i in 0..5 {
+            lines.push(format!("zf{i} -> zf{i}"));
+            lines.push(format!("$zf{i}: zf{i}"));
+        }
+        return lines.join("\n");
+    }
+    for i in 0..raw.frozen.min(2) {
+        lines.push(format!("zf{i} -> zf{i}"));
+        lines.push(format!("$zf{i}: zf{i}"));
+    }
     lines.join("\n")
 }
 
@@ -334,6 +364,14 @@ pub enum RawF {
     /// exchanged roles (duplicates that differ only in variable names, as in the usual
     /// bi-stability formulae)
     TwinSwap(u8, u16, Box<RawF>),
+    /// a long chain `l1 op (l2 op (... (l_n op inner)))` (or left-nested, or a chain of unary
+    /// operators) with 9..32 links: long formula strings, long flat chains for the parser
+    Chain(u8, u8, Vec<u16>, Box<RawF>),
+    /// 4..11 directly nested quantifiers around the body (as deep as the configuration allows)
+    Nest(u8, Vec<(u8, Option<u16>)>, Box<RawF>),
+    /// `chain(core) op chain(core')`: two long formulae sharing a long prefix, the tails being
+    /// permutations of each other (two propositions exchanged)
+    TwinTail(u8, u8, Vec<u16>, Box<RawF>),
 }
 
 #[derive(Clone, Copy, Debug)]
@@ -343,6 +381,8 @@ pub struct FCfg {
     pub weak_until: bool,
     pub max_quant_depth: usize,
     pub patterns: bool,
+    /// allow the `Chain` production (long formulae)
+    pub long_chains: bool,
 }
 
 impl FCfg {
@@ -352,6 +392,7 @@ impl FCfg {
         weak_until: false,
         max_quant_depth: 3,
         patterns: true,
+        long_chains: true,
     };
     pub const PLAIN_WEAK: FCfg = FCfg {
         wild: false,
@@ -359,6 +400,7 @@ impl FCfg {
         weak_until: true,
         max_quant_depth: 3,
         patterns: true,
+        long_chains: true,
     };
     pub const EXTENDED: FCfg = FCfg {
         wild: true,
@@ -366,6 +408,7 @@ impl FCfg {
         weak_until: false,
         max_quant_depth: 3,
         patterns: true,
+        long_chains: true,
     };
     pub const EXTENDED_WEAK: FCfg = FCfg {
         wild: true,
@@ -373,6 +416,7 @@ impl FCfg {
         weak_until: true,
         max_quant_depth: 3,
         patterns: true,
+        long_chains: true,
     };
 }
 
@@ -400,8 +444,14 @@ pub fn raw_f_weighted(depth: u32, size: u32, pattern_weight: u32) -> BoxedStrate
                 .prop_map(|(op, v, d, a)| RawF::Hyb(op, v, d, Box::new(a))),
             2 => (any::<u8>(), any::<u16>(), any::<u8>(), inner.clone())
                 .prop_map(|(ops, d, variant, a)| RawF::Twin(ops, d, variant, Box::new(a))),
-            1 => (any::<u8>(), any::<u16>(), inner)
+            1 => (any::<u8>(), any::<u16>(), inner.clone())
                 .prop_map(|(ops, v, a)| RawF::TwinSwap(ops, v, Box::new(a))),
+            1 => (any::<u8>(), any::<u8>(), prop::collection::vec(any::<u16>(), 1..6), inner.clone())
+                .prop_map(|(len, op, leaves, a)| RawF::Chain(len, op, leaves, Box::new(a))),
+            1 => (any::<u8>(), prop::collection::vec((any::<u8>(), prop::option::weighted(0.3, any::<u16>())), 1..6), inner.clone())
+                .prop_map(|(count, qs, a)| RawF::Nest(count, qs, Box::new(a))),
+            1 => (any::<u8>(), any::<u8>(), prop::collection::vec(any::<u16>(), 1..6), inner)
+                .prop_map(|(len, op, leaves, a)| RawF::TwinTail(len, op, leaves, Box::new(a))),
         ]
     })
     .boxed()
@@ -498,6 +548,52 @@ fn fresh_binder(sel: u16, scope: &[String], pool: &[&str]) -> String {
         i = (i + 1) % pool.len();
     }
     format!("v{}", scope.len())
+}
+
+fn swap_props(f: &F, a: &str, b: &str) -> F {
+    match f {
+        F::Prop(p) if p == a => F::Prop(b.to_string()),
+        F::Prop(p) if p == b => F::Prop(a.to_string()),
+        F::Un(op, x) => F::Un(*op, Box::new(swap_props(x, a, b))),
+        F::Bin(op, x, y) => F::Bin(*op, Box::new(swap_props(x, a, b)), Box::new(swap_props(y, a, b))),
+        F::Hyb(op, v, d, x) => F::Hyb(*op, v.clone(), d.clone(), Box::new(swap_props(x, a, b))),
+        other => other.clone(),
+    }
+}
+
+/// `l1 op (l2 op (... (l_n op inner)))` with 9..32 links (variants: left-nested, mixed operators,
+/// unary chain).
+fn build_chain(len: u8, op: u8, leaves: &[u16], inner: F, env: &FEnv, scope: &[String]) -> F {
+    let n = 9 + (len as usize % 24);
+    let leaf = |i: usize| -> F {
+        let sel = leaves[i % leaves.len()].wrapping_add((i as u16).wrapping_mul(7919));
+        if !scope.is_empty() && sel % 5 == 0 {
+            F::Var(scope[idx(sel, scope.len())].clone())
+        } else if env.props.is_empty() {
+            F::Const(sel % 2 == 0)
+        } else {
+            F::Prop(env.props[idx(sel, env.props.len())].clone())
+        }
+    };
+    let bins = [BinOp::And, BinOp::Or, BinOp::Xor, BinOp::Imp, BinOp::Iff, BinOp::EU, BinOp::AW];
+    let fix = |o: BinOp| {
+        if !env.cfg.weak_until && o == BinOp::AW {
+            BinOp::AU
+        } else {
+            o
+        }
+    };
+    let kind = op as usize % 10;
+    let mut acc = inner;
+    for i in (0..n).rev() {
+        acc = match kind {
+            0..=6 => F::bin(fix(bins[kind]), leaf(i), acc),
+            7 => F::bin(bins[(len as usize) % 5], acc, leaf(i)),
+            8 => F::bin(bins[(i + len as usize) % 5], leaf(i), acc),
+            _ => F::un([UnOp::Not, UnOp::AG, UnOp::EF, UnOp::AX, UnOp::EX, UnOp::Not][(i + len as usize) % 6], acc),
+        };
+    }
+    acc
 }
 
 fn resolve_rec(raw: &RawF, env: &FEnv, scope: &mut Vec<String>, seen: &mut Vec<F>) -> F {
@@ -630,6 +726,55 @@ fn resolve_node(raw: &RawF, env: &FEnv, scope: &mut Vec<String>, seen: &mut Vec<
             } else {
                 F::Bin(bop, Box::new(first), Box::new(second))
             }
+        }
+        RawF::Chain(len, op, leaves, body) => {
+            if !env.cfg.long_chains {
+                return resolve_rec(body, env, scope, seen);
+            }
+            let inner = resolve_rec(body, env, scope, seen);
+            build_chain(*len, *op, leaves, inner, env, scope)
+        }
+        RawF::TwinTail(len, op, leaves, body) => {
+            if !env.cfg.long_chains {
+                return resolve_rec(body, env, scope, seen);
+            }
+            // two long formulae with the same long prefix whose tails are permutations of each other
+            let core = resolve_rec(body, env, scope, seen);
+            let props: Vec<String> = core.props().into_iter().collect();
+            let core2 = if props.len() >= 2 {
+                swap_props(&core, &props[0], &props[1])
+            } else if !env.props.is_empty() && env.props.len() >= 2 {
+                F::and(core.clone(), F::Prop(env.props[idx(leaves[0], env.props.len())].clone()))
+            } else {
+                F::not(core.clone())
+            };
+            let c1 = build_chain(*len, *op, leaves, core, env, scope);
+            let c2 = build_chain(*len, *op, leaves, core2, env, scope);
+            F::Bin(BIN_OPS[(*len as usize / 3) % 5], Box::new(c1), Box::new(c2))
+        }
+        RawF::Nest(count, qs, body) => {
+            let room = env.cfg.max_quant_depth.saturating_sub(scope.len());
+            let n = (4 + (*count as usize % 8)).min(room);
+            let quants = [HybOp::Bind, HybOp::Exists, HybOp::Forall];
+            let mut names = vec![];
+            for i in 0..n {
+                let v = fresh_binder((*count as u16).wrapping_mul(31).wrapping_add((i as u16).wrapping_mul(9001)), scope, env.binders);
+                scope.push(v.clone());
+                names.push(v);
+            }
+            let mut acc = resolve_rec(body, env, scope, seen);
+            for i in (0..n).rev() {
+                scope.pop();
+                let (q, d) = &qs[i % qs.len()];
+                let d = match d {
+                    Some(sel) if env.cfg.domains && !env.labels.is_empty() => {
+                        Some(env.labels[idx(*sel, env.labels.len())].clone())
+                    }
+                    _ => None,
+                };
+                acc = F::Hyb(quants[(*q as usize + i) % 3], names[i].clone(), d, Box::new(acc));
+            }
+            acc
         }
         RawF::TwinSwap(ops, vsel, body) => {
             if scope.len() + 2 > env.cfg.max_quant_depth {
